@@ -1054,6 +1054,12 @@ func (p *parser) parseRule(rule *rule) (any, bool) {
 
 func (p *parser) parseExprWrap(expr any) (any, bool) {
 	// ==template== {{ if not .Optimize }}
+	if _, ok := expr.(*labeledExpr); ok {
+		// A labeled expression binds its label in the scope it is evaluated
+		// in, so it is never answered from the memoization table (the
+		// expression under the label still is).
+		return p.parseExpr(expr)
+	}
 	var pt savepoint
 
 	// ==template== {{ if .LeftRecursion }}
